@@ -91,7 +91,9 @@ def case_strategy(tier):
     # up to four site types (a split of a three-type system also has four)
     base = S.system_spec(big=False, allow_ms=True, max_types=4)
     return st.tuples(base, st.sampled_from(['perm', 'split', 'diblock', 'diblock', 'scale', 'perm', 'split', 'diblock']), st.integers(0, 10 ** 6), specs.fl(0.05, 0.95, 3),
-                     specs.logfloat(-1.3, 1.3, 4), specs.array_desc(6, (-2, 0)), specs.logfloat(-3, 0.3, 3)).map(
+                     # "all positive scale factors": mostly 0.05 .. 20, sometimes a change of energy unit by many orders of magnitude
+                     st.one_of(specs.logfloat(-1.3, 1.3, 4), specs.logfloat(-1.3, 1.3, 4), st.sampled_from([1e-4, 1e-2, 50.0, 300.0, 1e3, 1e4])),
+                     specs.array_desc(6, (-2, 0)), specs.logfloat(-3, 0.3, 3)).map(
         lambda t: {'base': t[0], 'T': t[1], 'pick': t[2], 'f': t[3], 's': t[4], 'x': t[5], 'amp': t[6]})
 
 
